@@ -64,7 +64,7 @@ struct Scn {
     std::string expect;                  // mode 0/1: exact delivered bytes
     std::vector<std::string> later_stages; // mode 0: stages deeper than the expected one (must never be what is delivered)
     std::string label_extra;
-    bool has2 = false; std::string expect2; // a second, pipelined response on the same connection with another coding (the decompressor must be set up afresh)
+    bool has2 = false, second_zlib = false; std::string expect2; // a second, pipelined response on the same connection with another coding (the decompressor must be set up afresh)
     std::string label;                   // class label for evidence, e.g. "gzip,deflate_raw/chunked"
     std::vector<size_t> cuts;
 };
@@ -73,7 +73,7 @@ static std::string scn_text(const Scn &s) {
     std::string t = "c07 " + std::to_string(s.pers) + " " + std::to_string(s.dir) + " " + std::to_string(s.mode) + " " + std::to_string(s.layer_limit) + " " + std::to_string(s.lzma_layers) + " " + std::to_string(s.bomb) + " " + std::to_string(s.body_at) + " " + std::to_string(s.body_len) + " " + std::to_string(s.multi_piece_framing) + "\n";
     t += "label " + s.label + "\nreq " + H(s.rq) + "\nres " + H(s.rs) + "\nexpect " + (s.mode == 2 ? std::string("-") : H(s.expect)) + "\n";
     for (auto &l : s.later_stages) t += "later " + H(l) + "\n";
-    if (s.has2) t += "expect2 " + H(s.expect2) + "\n";
+    if (s.has2) t += "expect2 " + H(s.expect2) + " " + std::to_string(s.second_zlib) + "\n";
     t += "cuts"; for (size_t c : s.cuts) t += " " + std::to_string(c); t += "\n";
     const std::string &w = s.dir ? s.rq : s.rs; t += "# head \"" + vc::esc(w.substr(0, s.body_at), 400) + "\" body " + std::to_string(s.body_len) + " bytes, expected delivery " + std::to_string(s.expect.size()) + " bytes\n";
     return t;
@@ -102,13 +102,16 @@ static std::pair<std::string, std::string> run_scn(const Scn &s) {
     vdrv::Result &r = ss.finish();
     bool t3 = r.trace_hits.count(3) > 0;
     bool cut_in_body = false; for (size_t cpos : s.cuts) if (cpos > s.body_at && cpos < s.body_at + s.body_len) cut_in_body = true;
-    std::string attr = (t3 && (cut_in_body || s.multi_piece_framing)) ? "+T3" : "";
+    // A restart is part of normal operation only for zlib-wrapped data announced as "deflate" and for bodies that are not valid for their coding;
+    // a valid gzip / raw deflate / LZMA stream never restarts, so a failure there is never attributed to the restart finding D7.
+    bool restart_expected = s.mode == 1 || s.label.find("deflate_zlib") != std::string::npos;
+    std::string attr = (t3 && restart_expected && (cut_in_body || s.multi_piece_framing)) ? "+T3" : "";
     // --mode c05 / c06: the same generated coded-body scenarios serve the lifecycle (C05) and accounting (C06) monitors of the driver
     if (A.mode == "c01") return {"", ""}; // only sanitizer reports count
     if (A.mode == "c05" || A.mode == "c06") { std::string pre = A.mode == "c05" ? "C05:" : "C06:"; for (auto &v : r.violations) if (v.rfind(pre, 0) == 0) return {v, "stream monitor: " + v + " (coded body scenario " + s.label + ")"}; return {"", ""}; }
     if (!ob.bound_fail.empty()) return {"bomb_bound_exceeded:" + s.label, ob.bound_fail};
     if (s.mode == 2) return {"", ""};
-    bool cut_in_second = false; for (size_t cpos : s.cuts) if (cpos > s.body_at + s.body_len) cut_in_second = true; std::string attr2 = (t3 && cut_in_second) ? "+T3" : "";
+    bool cut_in_second = false; for (size_t cpos : s.cuts) if (cpos > s.body_at + s.body_len) cut_in_second = true; std::string attr2 = (t3 && s.second_zlib && cut_in_second) ? "+T3" : "";
     if (s.has2 && ob.got == s.expect && ob.got2 != s.expect2) { size_t d = 0; while (d < ob.got2.size() && d < s.expect2.size() && ob.got2[d] == s.expect2[d]) d++; return {"fidelity_second_response:" + s.label + attr2, "the second (pipelined) response delivered " + std::to_string(ob.got2.size()) + " bytes, expected " + std::to_string(s.expect2.size()) + "; first difference at offset " + std::to_string(d)}; }
     if (ob.got != s.expect) {
         for (size_t i = 0; i < s.later_stages.size(); i++) if (!s.later_stages[i].empty() && ob.got == s.later_stages[i]) return {"more_layers_than_configured:" + s.label + attr, "delivered body equals the stream with " + std::to_string(i + 1) + " more layer(s) removed than the configured limit allows"};
@@ -121,7 +124,8 @@ static std::pair<std::string, std::string> run_scn(const Scn &s) {
 
 // ---- generators -----------------------------------------------------------------------------------------------
 static std::string gen_payload() {
-    int k = rcx::range(0, 9); std::string p;
+    int k = rcx::range(0, 10); std::string p;
+    if (k == 10) { int n = (rcx::coin() ? 8192 : 16384) + rcx::range(1, 600); uint64_t x = (uint64_t)rcx::range(1, 1 << 30); for (int i = 0; i < n; i++) { x = vc::mix(x + i); p += (char)(x & 0xff); } return p; } // incompressible, a little more than one or two output buffers: the input of a call can run out exactly when the buffer is full
     if (k == 0) return "";
     if (k <= 3) { int n = rcx::range(1, 80); for (int i = 0; i < n; i++) p += (char)('a' + rcx::range(0, 25)); return p; }
     if (k <= 5) { int n = rcx::range(1, 400); uint64_t x = (uint64_t)rcx::range(1, 1 << 30); for (int i = 0; i < n; i++) { x = vc::mix(x + i); p += (char)(x & 0xff); } return p; } // incompressible
@@ -181,7 +185,7 @@ static Scn gen_fidelity() {
     build_streams(s, ce, stages[0], framing);
     if (s.dir == 0 && framing != 2 && rcx::chance(1, 4)) { // pipelined second exchange with its own coding
         int k2 = rcx::range(-1, 2); std::string p2; int n2 = rcx::range(1, 200); for (int i = 0; i < n2; i++) p2 += (char)('k' + rcx::range(0, 9)); std::string b2 = k2 < 0 ? p2 : encode(k2, p2);
-        s.rq += "GET /second HTTP/1.1\r\nHost: h.example\r\n\r\n"; s.rs += "HTTP/1.1 200 OK\r\n" + (k2 < 0 ? std::string() : "Content-Encoding: " + token_of(k2) + "\r\n") + "Content-Length: " + std::to_string(b2.size()) + "\r\n\r\n" + b2; s.has2 = true; s.expect2 = p2; }
+        s.rq += "GET /second HTTP/1.1\r\nHost: h.example\r\n\r\n"; s.rs += "HTTP/1.1 200 OK\r\n" + (k2 < 0 ? std::string() : "Content-Encoding: " + token_of(k2) + "\r\n") + "Content-Length: " + std::to_string(b2.size()) + "\r\n\r\n" + b2; s.has2 = true; s.expect2 = p2; s.second_zlib = k2 == K_DEFLATE_ZLIB; }
     s.label = ""; for (int j = 0; j < nl; j++) { if (j) s.label += ","; s.label += KN[kinds[j]]; } s.label += s.dir ? "/request" : "/response";
     return s;
 }
@@ -234,6 +238,8 @@ static std::optional<rcx::Fail> all_chunkings(Scn &s, bool counting) {
     size_t lo = s.body_at > 2 ? s.body_at - 2 : 1, hi = std::min(w.size(), s.body_at + s.body_len + 1);
     std::vector<size_t> singles; if (hi - lo <= 600) for (size_t c = lo; c < hi; c++) singles.push_back(c); else { for (size_t c = lo; c < lo + 40 && c < hi; c++) singles.push_back(c); for (size_t c = hi > 24 ? hi - 24 : lo; c < hi; c++) singles.push_back(c); for (int i = 0; i < 30; i++) singles.push_back((size_t)rcx::range((int)lo, (int)hi - 1)); }
     for (size_t c : singles) { if (c == 0 || c >= w.size()) continue; s.cuts = {c}; if (auto f = verdict(s, counting)) return f; if (counting) { if (c > s.body_at && c < s.body_at + 12) g_stats.cls("cut_in_first_12_bytes_of_coded_body"); if (c + 10 > s.body_at + s.body_len && c < s.body_at + s.body_len) g_stats.cls("cut_in_last_10_bytes_of_coded_body"); g_stats.nt(vc::fnv1a(w, c)); } }
+    // incompressible payloads: every cut in the windows where the decoder's output reaches a multiple of the 8 KiB buffer
+    if (s.mode == 0 && s.expect.size() > 8192 && s.body_len * 10 >= s.expect.size() * 9 && !s.multi_piece_framing) for (size_t m = 8192; m < s.body_len; m += 8192) for (size_t c = s.body_at + m - 40; c < s.body_at + m + 120 && c < w.size(); c++) { s.cuts = {c}; if (auto f = verdict(s, counting)) return f; if (counting) { g_stats.cls("cut_where_output_buffer_fills"); g_stats.nt(vc::fnv1a(w, c + 7)); } }
     if (w.size() <= 4000) { s.cuts.clear(); for (size_t c = 1; c < w.size(); c++) s.cuts.push_back(c); if (auto f = verdict(s, counting)) return f; if (counting) g_stats.cls("one_byte_per_call"); }
     for (int k = 0; k < 5; k++) { s.cuts.clear(); int n = rcx::range(2, 7); for (int i = 0; i < n && w.size() > 1; i++) s.cuts.push_back((size_t)rcx::range(1, (int)w.size() - 1)); std::sort(s.cuts.begin(), s.cuts.end()); if (auto f = verdict(s, counting)) return f; }
     s.cuts.clear();
@@ -277,7 +283,7 @@ static int replay(const std::string &path) {
     while (p < f.size()) {
         size_t e = f.find('\n', p); if (e == std::string::npos) e = f.size(); std::string l = f.substr(p, e - p); p = e + 1;
         if (l.rfind("c07 ", 0) == 0) { int mp = 0; sscanf(l.c_str() + 4, "%d %d %d %d %d %ld %zu %zu %d", &s.pers, &s.dir, &s.mode, &s.layer_limit, &s.lzma_layers, &s.bomb, &s.body_at, &s.body_len, &mp); s.multi_piece_framing = mp; }
-        else if (l.rfind("label ", 0) == 0) s.label = l.substr(6); else if (l.rfind("req ", 0) == 0) s.rq = U(l.substr(4)); else if (l.rfind("res ", 0) == 0) s.rs = U(l.substr(4)); else if (l.rfind("expect ", 0) == 0) s.expect = U(l.substr(7)); else if (l.rfind("later ", 0) == 0) s.later_stages.push_back(U(l.substr(6))); else if (l.rfind("expect2 ", 0) == 0) { s.has2 = true; s.expect2 = U(l.substr(8)); }
+        else if (l.rfind("label ", 0) == 0) s.label = l.substr(6); else if (l.rfind("req ", 0) == 0) s.rq = U(l.substr(4)); else if (l.rfind("res ", 0) == 0) s.rs = U(l.substr(4)); else if (l.rfind("expect ", 0) == 0) s.expect = U(l.substr(7)); else if (l.rfind("later ", 0) == 0) s.later_stages.push_back(U(l.substr(6))); else if (l.rfind("expect2 ", 0) == 0) { s.has2 = true; std::string r = l.substr(8); size_t sp = r.find(' '); s.expect2 = U(r.substr(0, sp)); if (sp != std::string::npos) s.second_zlib = atoi(r.c_str() + sp + 1) != 0; }
         else if (l.rfind("cuts", 0) == 0) { const char *c = l.c_str() + 4; char *end; for (;;) { long n = strtol(c, &end, 10); if (end == c) break; s.cuts.push_back((size_t)n); c = end; } }
     }
     auto r = run_scn(s);
